@@ -184,8 +184,16 @@ def ord13(P, R, L):
     if b is not None:
         rm = [c for c in K.normal_sites(b, "std::collections::HashSet::remove") if any("tables_in_use" in o.path for o in origins(b, c.args[0]))]
         bs = sites_reaching(P, b, "db::DB::build_table_from_iterator")
-        ok = all(b.must_pass(r.bb, through_nodes=[x.bb for x in bs]) for r in rm)
-        R.check("ORD-13", K.CONVERT + "|unregister-after-build", ok, K.where(b), "tables_in_use.remove comes after the build", "")
+        ok = bool(rm) and all(b.must_pass(r.bb, through_nodes=[x.bb for x in bs]) for r in rm) and \
+            all(b.must_pass(x, through_nodes=[r.bb for r in rm]) for x in K._ok_blocks(b))
+        R.check("ORD-13", K.CONVERT + "|unregister-after-build", ok, K.where(b),
+                "tables_in_use.remove comes after the build and on every successful return (a number left registered pins nothing useful and a dead file of that number is never collected)", "remove sites %d" % len(rm))
+    cl = P.body(K.CLEANUP)
+    if cl is not None:
+        R.analysed(cl)
+        rm = [c for c in K.normal_sites(cl, "std::collections::HashSet::remove") if any("tables_in_use" in o.path for o in origins(cl, c.args[0]))]
+        ok = bool(rm) and all(in_cycle(cl, r.bb) for r in rm)
+        R.check("ORD-13", K.CLEANUP + "|unregisters-all-outputs", ok, K.where(cl), "cleanup_compaction unregisters every output file of the compaction (loop over get_output_files)", "remove sites %d" % len(rm))
     for p, bd in sorted(P.bodies.items()):
         for c in bd.calls():
             if c.name == "std::collections::HashSet::remove" and not bd.is_cleanup(c.bb) and any("tables_in_use" in o.path for o in origins(bd, c.args[0])):
